@@ -32,6 +32,10 @@ CHECKS = {
   text="Stateless model checking of the real implementation: the real ignore::WalkParallel runs under a cooperative replay scheduler (feature verif-hooks) and every interleaving of its hooked synchronisation points is executed up to a preemption bound (iterative preemption bounding, CHESS style), with injected Steal::Retry answers and a visitor Quit injected at every visit index, over all small trees; oracle: termination (deadlock / livelock detection) and exact visit multiset.",
   note="Trusted: crossbeam-deque linearizability (each deque operation is one atomic step; Retry is injected), SC behaviour of the RMW/SeqCst atomics, the scheduler hook itself. Not covered: more than 3 (quick) / 4 (thorough) workers, trees above the size bound, schedules needing more preemptions than the bound.",
   tech="stateless model checking: exhaustive schedule exploration of the real code under a controlled scheduler with a preemption bound"),
+ "C08": dict(cat="model_checking", ref="DESIGN.md §2, §3-E3, §4 C08",
+  text="Stateless schedule exploration of the REAL rg binary: one process per schedule, the parallel walker's workers serialised by the cooperative replay scheduler (RG_VERIF_SCHED, feature ignore/verif-hooks), every interleaving of the hooked points within 1 (quick) / 2 (thorough) preemptions, for four scratch trees (unequal file sizes, nested directories, a dangling symlink under -L, a --pre command failing after it produced output) x nine output modes x -j2 (thorough also -j3), plus --sort path. Oracle: the same command at -j1 — same exit status; stdout split by the mode's own framing into per-file blocks is a permutation of the single-threaded blocks, each file contiguous and exactly once, separators exactly between blocks; --sort byte-identical.",
+  note="Trusted: termcolor's BufferWriter locking; the visitor (search and print of one file) is atomic between two hooked points. Not judged: whether the partial results of a file whose search failed are shown (error handling: C15/C18).",
+  tech="stateless model checking: exhaustive schedule exploration (preemption-bounded) of the real binary under a controlled scheduler, -j1 run as the reference"),
  "C09": dict(cat="exploration", ref="DESIGN.md §4 C09",
   text="Bounded exhaustive enumeration: every input over {a,b,é,0xFF,\\r,\\n} up to length 4/5 (plus a family of 10 KiB / 70 KiB lines) x 14/36 patterns (+8 multi-line ones) x every subset of -n -b --column --vimgrep -H --heading --null x context x {line, -U, --crlf}, rendered in-process by the standard printer and parsed back with the mode's grammar: every record's text is the input's line at the printed line number / byte offset and the column is the start of the first reference match; JSON printer: begin / ordered match+context / end framing, lines and submatches decode (text or base64, base64 iff not UTF-8) to the input at absolute_offset, submatches equal the reference regex's matches, concatenation == input when every line is reported; plus a searcher/printer reuse layer (259 files in a row through search_path).",
   note="-o, -r, --trim, --max-columns are outside the property by its statement. Under --crlf inputs with a bare CR are not judged for match positions (documented: the matcher never matches \\r). Known finding (open): in multi-line mode every line of a block carries the block's first column.",
